@@ -24,7 +24,8 @@ TABLE = [
 
 SELECTION = [("flp", None, 3, 4), ("mcp", None, 2, 3), ("dpp", None, 4, 9), ("mdpp", None, 4, 9)]
 SMTWTP = [("smtwtp", None, 3, 4)]
-EXTRA = {"C02": SELECTION + SMTWTP, "C03": SELECTION[:2] + SMTWTP}
+MDCPDP = [("mdcpdp", "d1", 4, 6), ("mdcpdp", "d2", 4, 4), ("mdcpdp", "d3", 4, 4)]  # 1 / 2 / 3 depots (documented constraints only; reward not claimed)
+EXTRA = {"C01": MDCPDP, "C02": SELECTION + SMTWTP + MDCPDP, "C03": SELECTION[:2] + SMTWTP}
 NO_GENERATOR = {"dpp", "mdpp"}  # constructors need downloaded data: no generator rollouts (witness runs are still replayed)
 
 
@@ -50,8 +51,8 @@ def plan(prop, tier, seed, B_quick=1):
                 sizes = [(nq, 1)]
         else:
             sizes = [(nq, B_quick)] if tier == "quick" else [(nq, 2), (nt, 1)]
-        if spec == "pdp":
-            sizes = [(n - n % 2, B) for n, B in sizes]
+        if spec in ("pdp", "mdcpdp"):
+            sizes = [(max(2, n - n % 2), B) for n, B in sizes]
         for n, B in sizes:
             jobs.append({"id": f"{prop}:{spec}[{variant}] n={n} B={B}", "module": "vf.episodes", "func": "episode_job",
                          "params": dict(spec=spec, variant=variant, n=n, B=B, mode=prop)})
